@@ -499,6 +499,13 @@ func (w *vfWorld) disconnect(a, b peer.ID) {
 	delete(w.conns, [2]peer.ID{a, b})
 	delete(w.conns, [2]peer.ID{b, a})
 	epa, epb := w.eps[a], w.eps[b]
+	// a dial that is still pending fails when the connection goes away
+	for _, k := range [][2]peer.ID{{a, b}, {b, a}} {
+		if ch, ok := w.release[k]; ok {
+			close(ch)
+			delete(w.release, k)
+		}
+	}
 	w.mu.Unlock()
 	for _, c := range []*vfConn{ca, cb} {
 		if c == nil {
@@ -559,6 +566,10 @@ func (w *vfWorld) openStream(ctx context.Context, from, to peer.ID, protos []pro
 	k := [2]peer.ID{from, to}
 	for {
 		w.mu.Lock()
+		if _, ok := w.conns[k]; !ok {
+			w.mu.Unlock()
+			return nil, errors.New("vf: not connected")
+		}
 		pol := w.policy[k]
 		if pol != vfStreamBlock {
 			w.mu.Unlock()
